@@ -26,6 +26,9 @@ type MicroSpec struct {
 	Ops   []string `json:"ops"`
 	Unbuf bool     `json:"unbuf,omitempty"` // consumers negotiate output_buffer_size -1
 	Solo  bool     `json:"solo,omitempty"`  // only c1 subscribes (c2 stays an idle connection)
+	// TwoChan: the topic has a second channel "c2" with no consumer, created before anything
+	// is published (so it holds m1 and m2 at rest)
+	TwoChan bool   `json:"twochan,omitempty"`
 	Sync  bool     `json:"sync,omitempty"`  // the disk queues' metadata is synced before the window (sync-timeout has passed)
 	Trace bool     `json:"trace,omitempty"`
 }
@@ -43,6 +46,9 @@ func (s MicroSpec) String() string {
 	}
 	if s.Sync {
 		e += "/sync"
+	}
+	if s.TwoChan {
+		e += "/twochan"
 	}
 	return fmt.Sprintf("%s/%s/memq%d/%s", s.State, e, s.MemQ, strings.Join(s.Ops, "|"))
 }
@@ -392,6 +398,12 @@ func (x *microCtx) setup() string {
 		if f, ok := c.Next(); !ok || string(f.Data) != "OK" {
 			return "sub failed: " + f.String()
 		}
+	}
+	if spec.TwoChan {
+		if code, _ := w.Do("POST", "/channel/create?topic="+x.topic+"&channel=c2", nil); code != 200 {
+			return "setup: creating channel c2 failed"
+		}
+		w.Quiesce()
 	}
 	x.k1, x.k2 = x.client(x.c1), x.client(x.c2)
 	if x.k1 == nil || (x.k2 == nil && !spec.Solo) {
@@ -1204,6 +1216,9 @@ func (x *microCtx) afterRestart() {
 		}
 		w2.Sleep(600 * time.Millisecond)
 	}
+	if x.spec.TwoChan {
+		x.afterRestartSecondChannel(w2)
+	}
 	finished := x.m1 != "" && x.finOK[x.m1]
 	// Post-mortem of the first daemon: Channel.flush writes the in-flight table to the
 	// backend but does not clear it, so a message that is LOST and nevertheless sits in the
@@ -1257,6 +1272,45 @@ func (x *microCtx) afterRestart() {
 		}
 		if got[0] < before[body]+1 {
 			x.bad("C05 attempts count did not continue across the restart", "%s: attempts %d before the shutdown, %d on the first delivery after the restart", body, before[body], got[0])
+		}
+	}
+}
+
+// afterRestartSecondChannel (C05 "delivered again on each of its channels"): channel c2 had
+// no consumer, so m1 and m2 lay at rest in it the whole time - they come back whatever the
+// shutdown overlapped; and a message published inside the window that comes back on one
+// channel comes back on the other.
+func (x *microCtx) afterRestartSecondChannel(w2 *World) {
+	if w2.Channel(x.topic, "c2") == nil {
+		x.bad("C05 channels differ after restart", "channel c2 of topic %s existed when shutdown was requested; after the restart the topic has channels %v", x.topic, chanNamesOf(w2, x.topic))
+		return
+	}
+	w2.Do("POST", "/channel/unpause?topic="+x.topic+"&channel=c2", nil)
+	d := w2.Dial("drain2")
+	d.Identify(map[string]interface{}{"client_id": "drain2", "output_buffer_size": -1})
+	d.Cmd("SUB "+x.topic+" c2", nil)
+	w2.Quiesce()
+	d.Cmd("RDY 10", nil)
+	got := map[string]int{}
+	for round := 0; round < 6; round++ {
+		w2.Quiesce()
+		for _, f := range d.Take() {
+			if f.Type == frameTypeMessage {
+				got[f.Body]++
+				d.Cmd("FIN "+f.ID, nil)
+			}
+		}
+		w2.Sleep(600 * time.Millisecond)
+	}
+	for _, body := range []string{"m1", "m2"} {
+		if x.spec.State != "none" && x.spec.State != "ready" && got[body] == 0 {
+			x.bad("C05 message at rest on a channel without consumers lost by a graceful shutdown", "%s was queued on channel c2 (no consumer, untouched by the scenario) when shutdown was requested and was not delivered on c2 after the restart; c2 delivered %v, channel %s delivered %v", body, got, x.ch, x.afterRst)
+		}
+	}
+	for _, body := range []string{"m3"} {
+		onC, onC2 := len(x.afterRst[body]) > 0, got[body] > 0
+		if onC != onC2 {
+			x.bad("C05 C01 message restored on one channel of its topic but not on the other", "%s (published while the shutdown was requested): after the restart channel %s delivered %v, channel c2 delivered %v - both channels existed before it was published", body, x.ch, x.afterRst, got)
 		}
 	}
 }
